@@ -6,6 +6,7 @@ import (
 	"fmt"
 	"math"
 	"os"
+	"runtime"
 	"sort"
 	"strings"
 
@@ -380,6 +381,8 @@ func c07Check(cs *h.Case, api string, got pg.Value, n pnode, opts *pg.Options) b
 }
 
 func runC07(c *h.Ctx) {
+	// first, so that the worker death it causes on the unchanged tree loses no counters of later cases
+	c07HeldNotFound(c)
 	c.Run("preads", c.N(12000, 300000), func(cs *h.Case) {
 		cfg := gen.PCfg{MaxDepth: 2, MaxFields: 6, Nested: cs.R.Bool(), Enums: true, BigNums: true,
 			// bool map keys are outside the property's domain (map<int*|uint*|string, ...>) and are rejected by design
@@ -617,6 +620,49 @@ func runC07(c *h.Ctx) {
 		if cs.I == 2 {
 			cs.Sample(map[string]interface{}{"proto": pc.Text, "message": fmt.Sprint(m), "bytes": hexs(b), "paths": len(nodes)})
 		}
+	})
+}
+
+// c07HeldNotFound is the deterministic witness of the known finding C07-K1: GetByPath of an absent field returns
+// an error Value that carries the insertion point as a raw pointer; when the field would be appended at the end of
+// a buffer whose length equals its allocation size, that pointer is one past the end of the buffer's object,
+// i.e. inside the *next* heap object. While such a Value is alive the garbage collector can meet a pointer into
+// a free slot and kills the process ("found bad pointer in Go heap"). The case holds 20000 of them over 6 GCs.
+func c07HeldNotFound(c *h.Ctx) {
+	c.Run("held-notfound-gc", 1, func(cs *h.Case) {
+		const text = "syntax = \"proto3\";\noption go_package = \"verif/pb\";\nmessage R { string s = 1; int32 v = 2; }\nservice Svc { rpc M(R) returns (R); }\n"
+		svc, err := dproto.NewDescritorFromContent(context.Background(), "verif.proto", text, nil)
+		if err != nil {
+			cs.Viol("pread:parse", "err", err)
+			return
+		}
+		desc := svc.LookupMethodByName("M").Input()
+		const N = 20000
+		bufs := make([][]byte, N)
+		held := make([]pg.Value, N)
+		for i := range bufs {
+			b := make([]byte, 96) // exactly one allocation size class: tag, length 94, 94 bytes of string
+			b[0], b[1] = 0x0a, 94
+			for k := 2; k < 96; k++ {
+				b[k] = 'a'
+			}
+			bufs[i] = b
+			held[i] = pg.NewRootValue(desc, b).GetByPath(pg.NewPathFieldId(2)) // absent: would be appended at the end
+			if !held[i].IsErrNotFound() {
+				cs.Viol("pread:GetByPath:absent-not-notfound", "i", i)
+				return
+			}
+		}
+		cs.WriteAhead("proto.generic.Value.GetByPath(absent field at the end of a 96-byte buffer), value held across GC", bufs[0])
+		for i := 1; i < N; i += 2 {
+			bufs[i], held[i] = nil, pg.Value{}
+		}
+		for k := 0; k < 6; k++ {
+			runtime.GC()
+		}
+		runtime.KeepAlive(held)
+		runtime.KeepAlive(bufs)
+		cs.Cover("held_notfound_values_survived_gc")
 	})
 }
 
